@@ -246,7 +246,7 @@ inline SGen valid_setting(Method m, const SOpts &o) {
         cls += "/rounds";
       }
       int k = wpick({1, 3, 3, 2});
-      size_t n = k == 0 ? 0 : k == 1 ? (size_t)pick(1, 7) : k == 2 ? 8 : (size_t)pick(9, 40);
+      size_t n = k == 0 ? 0 : k == 1 ? (size_t)pick(1, 7) : k == 2 ? 8 : coin(1, 4) ? (size_t)pick(41, 330) : (size_t)pick(9, 40);
       static const char *nm[] = {"salt0", "saltshort", "salt8", "saltlong"};
       cls += std::string("/") + nm[k];
       s += chars_from(A64, n);
@@ -307,8 +307,12 @@ inline SGen valid_setting(Method m, const SOpts &o) {
       int k = wpick({1, 4, 2});
       static const char *nm[] = {"salt0", "salt", "salt$"};
       cls = nm[k];
-      if (k == 1) s += chars_from(A64, (size_t)pick(1, 60));
-      else if (k == 2) {
+      if (k == 1) {
+        // the salt is an arbitrary-length string: all of 1..325 (result lengths up to the output field) is drawn
+        int lc = wpick({8, 3, 2, 1});
+        s += chars_from(A64, lc == 0 ? (size_t)pick(1, 60) : lc == 1 ? (size_t)pick(61, 150) : lc == 2 ? (size_t)pick(151, 281) : (size_t)pick(282, 325));
+        if (lc) cls += "-long";
+      } else if (k == 2) {
         s += chars_from(A64, (size_t)pick(0, 20));
         s += "$";
         s += chars_from(A64, (size_t)pick(1, 20));
@@ -399,7 +403,47 @@ inline SGen valid_setting(Method m, const SOpts &o) {
 }
 
 // ---- mutated-valid and raw settings ------------------------------------------
+// Other spellings of a decimal field (the usual strtoul pitfalls: sign, white space, leading zero, hexadecimal,
+// values that wrap to an acceptable one, trailing text); most must be rejected, none may change the meaning silently.
+inline Bytes respell_number(Bytes s, bool anybyte = true) {
+  // the decimal runs that follow "rounds=" or the "$sha1$" tag
+  std::vector<std::pair<size_t, size_t>> runs;
+  for (size_t i = 0; i < s.size(); i++) {
+    bool at = (i >= 7 && s.compare(i - 7, 7, "rounds=") == 0) || (i == 6 && s.compare(0, 6, "$sha1$") == 0) || (i == 4 && (s.compare(0, 4, "$2b$") == 0 || s.compare(0, 4, "$2a$") == 0 || s.compare(0, 4, "$2y$") == 0));
+    if (!at) continue;
+    size_t j = i;
+    while (j < s.size() && s[j] >= '0' && s[j] <= '9') j++;
+    runs.emplace_back(i, j - i);
+  }
+  if (runs.empty()) return s;
+  auto r = runs[(size_t)pick(0, (long long)runs.size() - 1)];
+  Bytes num = s.substr(r.first, r.second), alt;
+  unsigned long long v = strtoull(num.c_str(), nullptr, 10);
+  char buf[80];
+  int k = (int)pick(0, 11);
+  if (!anybyte && (k == 2 || k == 11)) k = 0;  // white space is not passwd-safe
+  switch (k) {
+    case 0: alt = "+" + num; break;
+    case 1: alt = "-" + num; break;
+    case 2: alt = " " + num; break;
+    case 3: alt = "0" + num; break;
+    case 4: snprintf(buf, sizeof buf, "0x%llx", v); alt = buf; break;
+    case 5: snprintf(buf, sizeof buf, "%llu", v + 4294967296ULL); alt = buf; break;          // wraps in 32 bits
+    case 6: snprintf(buf, sizeof buf, "1844674407370955%llu", 1616ULL + v); alt = buf; break;  // 2^64 + v for v < 8384
+    case 7: snprintf(buf, sizeof buf, "-%llu", 0ULL - v); alt = buf; break;                  // strtoul negates: wraps back to v
+    case 8: alt = num + "x"; break;
+    case 9: alt = ""; break;
+    case 10: alt = num + Bytes((size_t)pick(1, 30), '0'); break;
+    default: alt = "\t" + num;
+  }
+  return s.substr(0, r.first) + alt + s.substr(r.first + r.second);
+}
+
 inline Bytes mutate(Bytes s, int maxedits = 3, bool anybyte = true) {
+  if (coin(1, 8)) {
+    Bytes t = respell_number(s, anybyte);
+    if (t != s) return t;
+  }
   int n = (int)pick(1, maxedits);
   for (int i = 0; i < n; i++) {
     int k = wpick({5, 2, 2, 1, 1});
